@@ -86,7 +86,8 @@ func (r *Reader) Next() (Packet, error) {
 		return Packet{}, err
 	}
 
-	if header.Length == 0 {
+	// the record length includes the record header itself
+	if header.Length < pktHeaderLen {
 		return Packet{}, errMalformed
 	}
 
